@@ -21,6 +21,7 @@ func init() {
 		rules.ConstructorCompleteness(p, r)
 		rules.PeerBeforePorts(p, r, "E2-N3-pre")
 		rules.AdminSelectionExcludesIPs(p, r, "E2-N3-sel")
+		rules.MapFieldsAllocated(p, r, "E2-N12-map")
 		r.Floor("E2-N1", 18)
 		r.Floor("E2-N3", 12)
 		r.Floor("E2-N7", 10)
